@@ -10,6 +10,7 @@ expressions the model computes with (for all values of the variables).
 -/
 import VaxisModel.Model.ListGen
 import VaxisModel.Lemmas.DynSkelExpected
+import VaxisModel.Lemmas.DynInterp
 
 namespace VaxisModel.Props.C19Tie
 open VaxisModel.Model VaxisModel.Model.GoSyn
@@ -165,5 +166,41 @@ theorem facts_wheel (s : DynList.St) :
   refine ⟨rfl, rfl, rfl, ?_⟩
   unfold DynList.wheelUp
   by_cases h1 : s.offset > 0 <;> by_cases h2 : s.top > 0 <;> simp [h1, h2]
+
+/-! ### the small methods: the model IS the regenerated syntax, interpreted
+
+`Model/DynInterp.lean` runs a regenerated method body directly (assignments to the scroll state with
+`uint` wrap-around, `if` blocks, `return`, the Builder call, the call of `ensureScroll`).  For every
+state (cursor below 2^63) and every builder the result is the function `Model/DynList.lean` defines. -/
+
+open VaxisModel.Model.DynInterp in
+/-- `ensureScroll`, interpreted = `DynList.ensureScroll`. -/
+theorem interp_ensureScroll (hs : List Nat) (s : DynList.St) (hc : s.cursor < 2 ^ 63) :
+    (runMethod hs ensureScroll ensureScroll s 0).map (·.st) = some (DynList.ensureScroll s) := by
+  rw [skeleton_ensureScroll]
+  exact Lemmas.DynInterp.ensureScroll_run hs s (by omega) 0
+
+open VaxisModel.Model.DynInterp in
+/-- `SetCursor(c)`, interpreted = `DynList.setCursor`; `SetPendingScroll(k)` = `DynList.setPending`. -/
+theorem interp_setters (hs : List Nat) (s : DynList.St) (c : Nat) (hc : c < 2 ^ 63) (k : Int) :
+    (runMethod hs ensureScroll setCursor s c).map (·.st) = some (DynList.setCursor s c) ∧
+    (runMethod hs ensureScroll setPendingScroll s k).map (·.st) = some (DynList.setPending s k) := by
+  rw [skeleton_ensureScroll, skeleton_setters.1, skeleton_setters.2.1]
+  exact ⟨Lemmas.DynInterp.setCursor_interp hs s c hc, Lemmas.DynInterp.setPendingScroll_interp hs s k⟩
+
+open VaxisModel.Model.DynInterp in
+/-- `NextItem` / `PrevItem`, interpreted on any builder = `DynList.nextItem` / `prevItem` (new state and
+    whether a command is returned). -/
+theorem interp_next_prev (hs : List Nat) (s : DynList.St) (hc : s.cursor < 2 ^ 63) :
+    (runMethod hs ensureScroll nextItem s 0).map (fun r => (r.st, r.ret)) =
+      some ((DynList.nextItem hs s).1, some (DynList.nextItem hs s).2) ∧
+    (runMethod hs ensureScroll prevItem s 0).map (fun r => (r.st, r.ret)) =
+      some ((DynList.prevItem hs s).1, some (DynList.prevItem hs s).2) := by
+  rw [skeleton_ensureScroll, skeleton_nextItem, skeleton_prevItem]
+  exact ⟨Lemmas.DynInterp.nextItem_interp hs s hc, Lemmas.DynInterp.prevItem_interp hs s hc⟩
+
+/-- Non-vacuity: `NextItem` interpreted on three items from the initial state. -/
+example : ((DynInterp.runMethod [1, 2, 3] ensureScroll nextItem DynList.init 0).map (fun r => (r.st.cursor, r.st.wantsCursor, r.ret)))
+    = some (1, true, some true) := by decide
 
 end VaxisModel.Props.C19Tie
